@@ -307,3 +307,5 @@ def check(ctx):
     adaptors.analyze(ctx, ("C02.j", "C08.f"))   # a dropped element is a construct that is never converted, hence never rejected
     from .common import cache_foundation
     cache_foundation(ctx)
+    from . import error_rules
+    error_rules.analyze(ctx, "C15.i")     # no error is discarded on the way: a failing build / an unwritable file is reported to the caller
